@@ -14,6 +14,9 @@ pub(crate) trait BindScope: fmt::Debug + NotObserver {
     /// Like `height`, but `None` when the change-detector node is gone.
     #[cfg(cormacrelf_incremental_rs_verif)]
     fn verif_height(&self) -> Option<i32>;
+    /// Is the node with this id among the nodes recorded as created by the current run?
+    #[cfg(cormacrelf_incremental_rs_verif)]
+    fn verif_lists_rhs_node(&self, id: NodeId) -> bool;
 }
 
 #[derive(Clone)]
